@@ -71,6 +71,8 @@ def run(ctx) -> None:
   ctx.rule('R8', 'every SQL filter is an exact equality on key columns (the RAM backend addresses '
            'rows by exact dict keys): no LIKE/startswith/contains/range filters', 30)
   ctx.rule('R9', 'SQL backend: every in-memory container is invalidated by every method that writes a table it was filled from', 1)
+  ctx.rule('R11', 'write footprint: a DataStore method writes the same kinds of rows in both backends (trials / suggestion '
+           'operations / early-stopping operations / study)', 8)
   ctx.rule('R10', 'RAM update_trial never inserts: the row store is dominated by an existence test of the same key '
            '(DeleteTrial takes no study lock, so a blind store resurrects a trial deleted in between)', 1)
   if len(svc.ds_abstract) < 20:
@@ -86,6 +88,7 @@ def run(ctx) -> None:
   r8_exact_filters(ctx, svc)
   r9_sql_caches(ctx, svc)
   r10_update_never_inserts(ctx, svc)
+  r11_write_footprint(ctx, svc)
 
 
 # ----------------------------------------------------------------------- R9
@@ -105,6 +108,66 @@ def _tables_written(fn: ast.AST) -> Set[str]:
       if d.startswith('self._') and d.endswith('_table'):
         out.add(d[5:])
   return out
+
+
+_RAM_CONTAINER_ROWS = {'trial_protos': 'trials', 'suggestion_operations': 'suggestion_operations',
+                       'early_stopping_operations': 'early_stopping_operations', 'study_proto': 'studies'}
+_PER_STUDY_ROWS = {'studies', 'trials', 'suggestion_operations', 'early_stopping_operations'}
+
+
+def r11_write_footprint(ctx, svc: Svc) -> None:
+  from vzstatic.sqlmodel import SqlModel
+  tables = sql_tables(svc)
+  n = 0
+  for m in svc.ds_abstract:
+    if not m.name.startswith(('create_', 'update_', 'delete_')) or m.name in ('update_metadata', 'create_study', 'update_study'):
+      continue
+    ram, sql = svc.ram.methods.get(m.name), svc.sql.methods.get(m.name)
+    if ram is None or sql is None:
+      continue
+    sql_rows = set()
+    for call, q in SqlModel(sql.node).executed():
+      if q.kind in ('insert', 'update', 'delete') and q.table:
+        sql_rows.add(tables.get(q.table, (q.table,))[0])
+    sql_rows.discard('owners')
+    ram_rows = set()
+    unknown = []
+    for x in ast.walk(ram.node):
+      tg = []
+      if isinstance(x, ast.Assign):
+        tg = [(t, 'store') for t in x.targets]
+      elif isinstance(x, ast.AugAssign):
+        tg = [(x.target, 'store')]
+      elif isinstance(x, ast.Delete):
+        tg = [(t, 'del') for t in x.targets]
+      elif isinstance(x, ast.Call) and isinstance(x.func, ast.Attribute) and x.func.attr in ('pop', 'clear', 'update', 'popitem', 'setdefault', 'CopyFrom'):
+        tg = [(x.func.value, 'del' if x.func.attr in ('pop', 'clear', 'popitem') else 'store')]
+      for t, kind in tg:
+        if isinstance(t, ast.Name):
+          continue
+        cont = flow.resolve_local(ram.node, t.value if isinstance(t, ast.Subscript) else t)
+        chain = unparse(cont, 0)
+        if '_owners' not in chain and not any(k in chain for k in _RAM_CONTAINER_ROWS):
+          continue
+        last = chain.rsplit('.', 1)[-1].split('[')[0]
+        if last in _RAM_CONTAINER_ROWS:
+          ram_rows.add(_RAM_CONTAINER_ROWS[last])
+        elif last == 'studies' and kind == 'del':
+          ram_rows |= _PER_STUDY_ROWS
+        elif last in ('clients', '_owners', 'studies'):
+          continue  # container nodes created on demand: no rows of their own
+        else:
+          unknown.append(chain)
+    if unknown:
+      raise AnalysisError(f'RAM.{m.name}: write into `{unknown[0]}` not classified')
+    n += 1
+    ctx.check(ram_rows == sql_rows, 'R11', f'{m.name}: rows written', ram.node,
+              f'both backends write {sorted(sql_rows)}',
+              f'the RAM backend writes {sorted(ram_rows)} but the SQL backend writes {sorted(sql_rows)}: after this call the two backends hold '
+              'different rows (e.g. an operation that one of them dropped is still answered by the other)',
+              construct=f'{m.name}:footprint', func=ram.qualname)
+  if n < 8:
+    raise AnalysisError(f'write footprints compared for only {n} methods')
 
 
 def r10_update_never_inserts(ctx, svc: Svc) -> None:
@@ -484,6 +547,28 @@ def r4_cascade(ctx, svc: Svc) -> None:
               'DeleteStudy + CreateStudy of the same name the SQL backend still serves the old rows '
               '(operation numbering continues, a stale unfinished operation can be returned), the '
               'RAM backend starts empty', construct=f'table {tname}', func=impl.qualname)
+  # every delete is unconditional: once the first row of the study is deleted, every normal path to the end passes
+  # through each of the other deletes (no "skip the operation tables if ..." shortcut)
+  g_del = cfgmod.CFG(impl.node)
+  del_nodes = []
+  for call, q in SqlModel(impl.node).executed():
+    if q.kind == 'delete' and q.table:
+      nd = g_del.node_of(call)
+      if nd is not None:
+        del_nodes.append((nd, q.table))
+  if del_nodes:
+    first = min((nd for nd, _ in del_nodes), key=lambda m: m.id)
+    dom_d = g_del.dominators()
+    firsts = [nd for nd, _ in del_nodes if all(nd.id in dom_d[o.id] or o is nd for o, _ in del_nodes)] or [first]
+    for nd, tb in del_nodes:
+      if nd is firsts[0]:
+        continue
+      skip = g_del.exit in g_del.reachable([firsts[0]], blocked=[nd])
+      ctx.check(not skip, 'R4', f'SQL.delete_study: delete from {tables.get(tb, (tb,))[0]} is unconditional', where(impl, nd),
+                'on every normal path after the first delete',
+                f'the delete from `{tables.get(tb, (tb,))[0]}` can be skipped on a normal path (it is conditional): rows of the deleted study '
+                'survive there, and a study re-created under the same name continues from them (operation numbering, stale operations); '
+                'the RAM backend drops everything', construct=f'conditional delete {tb}', func=impl.qualname)
   # exact key matches only
   for attr, clauses in deleted.items():
     for cl in clauses:
